@@ -6,7 +6,7 @@ import (
 	"strconv"
 
 	"verifharness/fw"
-	_ "verifharness/props"
+	"verifharness/props"
 )
 
 func main() {
@@ -25,6 +25,8 @@ func main() {
 		seed, _ := strconv.ParseInt(os.Args[4], 10, 64)
 		idx, _ := strconv.Atoi(os.Args[5])
 		os.Exit(fw.RunCaseMain(os.Args[2], os.Args[3], seed, idx, len(os.Args) > 6 && os.Args[6] == "race"))
+	case "replica":
+		os.Exit(props.ReplicaMain(os.Args[2:]))
 	case "list":
 		for _, id := range fw.IDs() {
 			fmt.Println(id)
